@@ -50,6 +50,13 @@ func ruleAtomicRMW(w *World, r *Report, rule string, la *LockAnalysis) {
 				case strings.HasPrefix(cal.Name(), "Load"):
 					o.load = true
 				case strings.HasPrefix(cal.Name(), "Store"):
+					// storing a constant (a flag, nil) is idempotent: nothing derived from the load is lost
+					if len(c.Args) > 0 {
+						last := c.Args[len(c.Args)-1]
+						if tv, ok := info.Types[last]; ok && (tv.Value != nil || tv.IsNil()) {
+							continue
+						}
+					}
 					o.store, o.storePos, o.storeNode = true, c.Pos(), nd
 				case strings.HasPrefix(cal.Name(), "CompareAndSwap"), strings.HasPrefix(cal.Name(), "Swap"), strings.HasPrefix(cal.Name(), "Add"):
 					o.cas = true
@@ -618,5 +625,119 @@ func ruleDegreeCountsEveryEdge(w *World, r *Report, rule string) {
 	}
 	if !found {
 		r.Fail(rule, "graph#InDegree++", token.NoPos, "no function counts in-degrees")
+	}
+}
+
+// ruleConstructorErrorPosition: the analyzer recognises an error return only in
+// the last result position; the invoker must look for the constructor's error in
+// that same position (the last element of the call's results), whatever the
+// shape of the other results (plain, multi-return, result object).
+func ruleConstructorErrorPosition(w *World, r *Report, rule string) {
+	n := 0
+	for _, fi := range w.FuncsOf(w.Refl) {
+		info := fi.Pkg.TypesInfo
+		defOf := func(o types.Object) ast.Expr {
+			var rhs ast.Expr
+			cnt := 0
+			ast.Inspect(fi.Decl.Body, func(x ast.Node) bool {
+				if as, ok := x.(*ast.AssignStmt); ok && len(as.Lhs) == len(as.Rhs) {
+					for i, l := range as.Lhs {
+						if objOf(info, l) == o {
+							rhs = as.Rhs[i]
+							cnt++
+						}
+					}
+				}
+				return true
+			})
+			if cnt == 1 {
+				return rhs
+			}
+			return nil
+		}
+		resolve := func(e ast.Expr) ast.Expr {
+			for i := 0; i < 3; i++ {
+				id, ok := unparen(e).(*ast.Ident)
+				if !ok {
+					break
+				}
+				o := objOf(info, id)
+				if o == nil {
+					break
+				}
+				d := defOf(o)
+				if d == nil {
+					break
+				}
+				e = d
+			}
+			return unparen(e)
+		}
+		isValueSlice := func(e ast.Expr) bool {
+			tv, ok := info.Types[e]
+			if !ok {
+				return false
+			}
+			sl, ok := tv.Type.Underlying().(*types.Slice)
+			return ok && isNamedType(sl.Elem(), "reflect", "Value")
+		}
+		ast.Inspect(fi.Decl.Body, func(x ast.Node) bool {
+			ta, ok := x.(*ast.TypeAssertExpr)
+			if !ok || ta.Type == nil {
+				return true
+			}
+			if tv, ok := info.Types[ta.Type]; !ok || !isErrorType(tv.Type) {
+				return true
+			}
+			c, ok := unparen(ta.X).(*ast.CallExpr)
+			if !ok || !isFunc(callee(info, c), "reflect", "Value", "Interface") {
+				return true
+			}
+			rcv, _, _ := methodCall(c)
+			n++
+			con := fmt.Sprintf("%s#constructor-error-position/%d", fi.Name(), n)
+			src := resolve(rcv)
+			good, why := false, ""
+			switch s := src.(type) {
+			case *ast.IndexExpr:
+				if !isValueSlice(s.X) {
+					why = "the value inspected is not an element of the call's results"
+					break
+				}
+				idx := resolve(s.Index)
+				if be, ok := idx.(*ast.BinaryExpr); ok && be.Op == token.SUB {
+					if v, isC := constInt(info, be.Y); isC && v == 1 {
+						if lc, ok := unparen(be.X).(*ast.CallExpr); ok {
+							if exprStr(lc.Fun) == "len" && len(lc.Args) == 1 && objOf(info, lc.Args[0]) != nil && objOf(info, lc.Args[0]) == objOf(info, s.X) {
+								good = true
+							}
+							if isFunc(callee(info, lc), "reflect", "Type", "NumOut") {
+								good = true
+							}
+						}
+					}
+				}
+				if !good {
+					why = "the constructor's error is read from results[" + exprStr(s.Index) + "], not from the last result: the analyzer recognises an error return in the last position only, and for result-object constructors the recorded return list describes the fields of the object, not the function's results"
+				}
+			default:
+				// the element variable of a range over the results: every result is inspected
+				if id, ok := unparen(rcv).(*ast.Ident); ok {
+					for _, l := range iterLoopsIn(info, fi.Decl.Body) {
+						if l.Elem != nil && l.Elem == objOf(info, id) && isValueSlice(l.Coll) {
+							good = true
+						}
+					}
+				}
+				if !good {
+					why = "the value inspected for the constructor's error (" + exprStr(rcv) + ") is not the last element of the call's results"
+				}
+			}
+			r.Check(good, rule, con, ta.Pos(), true, "the constructor's error is read from the last result, the position in which the analyzer recognises an error return", why)
+			return true
+		})
+	}
+	if n == 0 {
+		r.Fail(rule, "invoker#constructor-error-position", token.NoPos, "no function of the reflection package inspects a constructor result for an error: a constructor's error return is never reported")
 	}
 }
